@@ -194,6 +194,9 @@ class ICMP(Service, discriminator="icmp"):
         :param kwargs: Additional keyword arguments.
         :return: True if the payload was processed successfully, otherwise False.
         """
+        if not super().receive(payload=payload, session_id=session_id, **kwargs):
+            return False
+
         frame: Frame = kwargs["frame"]
         from_network_interface = kwargs["from_network_interface"]
 
